@@ -349,7 +349,7 @@ fn exec(sc0: &Scenario, ctx: &mut Ctx) -> Vec<Violation> {
 pub static C10: SimpleProp = SimpleProp {
     id: "C10",
     level: "exploration",
-    rule: "one evaluation = one pair (unlimited run, run with memlimit m) of a valid reference-encoded stream, m in {0, need-1, need, need+1, dict-1, dict, max, random, and values >= 2^32 whose low 32 bits are small} with need = min(dictionary, bytes produced), through lzma_decompress_with_options or Stream under a random history (each under all three header options), or the raw decoder (dictionary 1..5000; a third of these on a decoder object constructed for another size and re-targeted with reset); m >= need: identical verdict and bytes; m < need: Err and delivered bytes are a model prefix; heap peak of the limited run (metering allocator) <= literal table + next_power_of_two(max(min(m,need),8)) + 16 KiB; 1 run in 400 uses a window of 32-256 KiB that wraps at least once, where what is held while a full window is handed over becomes visible (only allocations made while library code runs are metered); a fifth of the header-carrying streams are re-headed to announce a 256 MiB-4 GiB dictionary (and, for size-bounded ones, a 1 GiB size); non-trivial = need > 0; distinct by scenario hash",
+    rule: "one evaluation = one pair (unlimited run, run with memlimit m) of a valid reference-encoded stream, m in {0, need-1, need, need+1, dict-1, dict, max, random, and values >= 2^32 whose low 32 bits are small} with need = min(dictionary, bytes produced), through lzma_decompress_with_options or Stream under a random history (each under all three header options), or the raw decoder (dictionary 1..5000; a third of these on a decoder object constructed for another size and re-targeted with reset, half of those with a first decompress call behind them); m >= need: identical verdict and bytes; m < need: Err and delivered bytes are a model prefix; heap peak of the limited run (metering allocator) <= literal table + next_power_of_two(max(min(m,need),8)) + 16 KiB; 1 run in 400 uses a window of 32-256 KiB that wraps at least once, where what is held while a full window is handed over becomes visible (only allocations made while library code runs are metered); a fifth of the header-carrying streams are re-headed to announce a 256 MiB-4 GiB dictionary (and, for size-bounded ones, a 1 GiB size); non-trivial = need > 0; distinct by scenario hash",
     runs_quick: 150_000,
     runs_thorough: 24_000_000,
     both_profiles: false,
